@@ -31,12 +31,15 @@ pub fn module() -> PropModule {
 const BASE: &str = "file:///basepath/";
 
 fn uri_of(stem: &str) -> Url {
-    Url::parse(&format!("{}{}.md", BASE, stem)).unwrap()
+    Url::from_file_path(format!("/basepath/{}.md", stem)).unwrap()
 }
 
-/// file stem of a uri under the base path: the path without the base and without one `.md`
+/// file stem of a uri under the base path: the decoded path without the base and without one `.md`
 fn stem_of(uri: &Url) -> String {
-    let s = uri.to_string();
+    let s = match uri.to_file_path() {
+        Ok(p) => format!("file://{}", p.to_string_lossy()),
+        Err(_) => uri.to_string(),
+    };
     let s = s.strip_prefix(BASE).unwrap_or(&s).to_string();
     s.strip_suffix(".md").unwrap_or(&s).to_string()
 }
